@@ -264,7 +264,7 @@ pub fn run(ctx: &mut Ctx) {
         let families: [(&str, &[u8]); 5] = [("list", &[0]), ("dict", &[1]), ("grid", &[2]), ("mixed", &[0, 1, 2]), ("meta", &[2, 3, 4, 1])];
         let mut idx = 0u64;
         for (fam, kinds) in families {
-            for d in [1usize, 2, 3, 5, 8, 13, 21, 34, 40, 42, 55, 64, 89, 100, 120, 126, 127] {
+            for d in [1usize, 2, 3, 5, 8, 13, 21, 34, 40, 42, 55, 64, 89, 100, 120, 126, 126, 126, 126, 126, 126, 126, 127, 127, 127, 127, 127, 127, 127] {
                 let i = idx;
                 idx += 1;
                 // serde_json counts JSON levels (a grid level is an object, an array and an object; a Ref is an object):
@@ -276,7 +276,8 @@ pub fn run(ctx: &mut Ctx) {
                     continue;
                 }
                 let mut rng = ctx.case_rng("deep-chain", i);
-                let m = crate::gen::deep_chain(&mut rng, d, kinds);
+                // at the deepest levels every kind of innermost value in turn, elsewhere a random one
+                let m = if d >= 126 { crate::gen::deep_chain_with_leaf(&mut rng, d, kinds, (i % 7) as usize) } else { crate::gen::deep_chain(&mut rng, d, kinds) };
                 ctx.eval(&format!("deep-chain:{fam}"), m.fp(), true);
                 ctx.note_max("max_nesting_depth_round_tripped", d as f64);
                 // deeper than serde_json's limit of 128 levels: outside the stated bound
